@@ -38,9 +38,10 @@ type Thenable struct {
 }
 
 type Act struct {
-	K  string `json:"k"` // res rej
-	Pr int    `json:"pr"`
-	V  Val    `json:"v"`
+	K   string `json:"k"` // res rej
+	Pr  int    `json:"pr"`
+	V   Val    `json:"v"`
+	Via string `json:"via,omitempty"` // native scripts only: go (resolver func / Callable) | run (nested RunString)
 }
 
 type Ret struct {
@@ -52,6 +53,10 @@ type Script struct {
 	ID   int   `json:"id"`
 	Acts []Act `json:"acts"`
 	Ret  Ret   `json:"ret"`
+	// native: the handler is a Go function (global hname) whose acts re-enter the Runtime through an
+	// outermost entry point (AResN / ARejN of the model)
+	Native bool   `json:"native,omitempty"`
+	hname  string // set by normalise
 }
 
 type Op struct {
@@ -120,19 +125,29 @@ func normScript(s *Script, nv func(*Val) Val, users map[int]bool) *Script {
 	if s == nil {
 		return nil
 	}
-	out := &Script{ID: clamp(s.ID, 0, 5000), Acts: []Act{}}
+	out := &Script{ID: clamp(s.ID, 0, 5000), Acts: []Act{}, Native: s.Native}
 	for _, a := range s.Acts {
 		if (a.K != "res" && a.K != "rej") || !users[a.Pr] {
 			continue
 		}
 		v := a.V
-		out.Acts = append(out.Acts, Act{K: a.K, Pr: a.Pr, V: nv(&v)})
+		via := ""
+		if s.Native {
+			via = "go"
+			if a.Via == "run" {
+				via = "run"
+			}
+		}
+		out.Acts = append(out.Acts, Act{K: a.K, Pr: a.Pr, V: nv(&v), Via: via})
 	}
 	switch s.Ret.K {
 	case "arg":
 		out.Ret = Ret{K: "arg"}
 	case "intr":
 		out.Ret = Ret{K: "intr"}
+		if s.Native {
+			out.Ret = Ret{K: "arg"}
+		}
 	case "throw":
 		v := nv(s.Ret.V)
 		out.Ret = Ret{K: "throw", V: &v}
@@ -239,7 +254,35 @@ func normalise(c Case) (Case, int) {
 			out.Thenables = append(out.Thenables, Thenable{K: "nothen"})
 		}
 	}
+	seq := 0
+	for _, sc := range scriptsOf(out) {
+		if sc.Native {
+			sc.hname = fmt.Sprintf("h%d_%d", sc.ID, seq)
+			seq++
+		}
+	}
 	return out, names
+}
+
+func scriptsOf(c Case) []*Script {
+	var ss []*Script
+	for _, op := range c.Ops {
+		for _, sc := range []*Script{op.OnF, op.OnR, op.Fin} {
+			if sc != nil {
+				ss = append(ss, sc)
+			}
+		}
+	}
+	return ss
+}
+
+func hasNative(c Case) bool {
+	for _, sc := range scriptsOf(c) {
+		if sc.Native {
+			return true
+		}
+	}
+	return false
 }
 
 // groups: consecutive js ops with the same run number form one run; a go op is its own run.
@@ -306,6 +349,9 @@ func pv(v *Val) Val {
 func jsScript(s *Script) string {
 	if s == nil {
 		return "undefined"
+	}
+	if s.Native {
+		return s.hname
 	}
 	var b strings.Builder
 	fmt.Fprintf(&b, "function(a){ log(%d, a); ", s.ID)
@@ -424,11 +470,11 @@ func cqScript(s *Script) string {
 	}
 	var acts []string
 	for _, a := range s.Acts {
-		if a.K == "res" {
-			acts = append(acts, fmt.Sprintf("ARes %d %s", a.Pr, cqVal(a.V)))
-		} else {
-			acts = append(acts, fmt.Sprintf("ARej %d %s", a.Pr, cqVal(a.V)))
+		ctor := map[string]string{"res": "ARes", "rej": "ARej"}[a.K]
+		if s.Native {
+			ctor += "N"
 		}
+		acts = append(acts, fmt.Sprintf("%s %d %s", ctor, a.Pr, cqVal(a.V)))
 	}
 	var ret string
 	switch s.Ret.K {
@@ -523,6 +569,9 @@ type exec struct {
 	errs  []string
 	goRes map[int]func(interface{}) error
 	goRej map[int]func(interface{}) error
+	// native handlers
+	inGoRun         bool
+	nativeInGoDrain bool
 	// filled by resolveNames
 	pobjs  []*goja.Object
 	pproms []*goja.Promise
@@ -583,25 +632,63 @@ func (e *exec) runGoOp(op Op, k int) error {
 		e.rt.Set(fmt.Sprintf("rej%d", k), func(v goja.Value) { reject(v) })
 		return nil
 	case "res", "rej":
-		val := e.goVal(pv(op.V))
-		tbl := e.goRes
-		if op.O == "rej" {
-			tbl = e.goRej
-		}
-		if f, ok := tbl[op.Pr]; ok {
-			return f(val)
-		}
-		fn, ok := goja.AssertFunction(e.rt.Get(fmt.Sprintf("%s%d", op.O, op.Pr)))
-		if !ok {
-			return fmt.Errorf("%s%d is not a function", op.O, op.Pr)
-		}
-		_, err := fn(goja.Undefined(), val)
-		return err
+		return e.settle(op.O, op.Pr, e.goVal(pv(op.V)))
 	}
 	return fmt.Errorf("op %q cannot run from Go", op.O)
 }
 
+// settle calls a resolving function of pair pr from Go through an outermost entry point.
+func (e *exec) settle(kind string, pr int, val goja.Value) error {
+	tbl := e.goRes
+	if kind == "rej" {
+		tbl = e.goRej
+	}
+	if f, ok := tbl[pr]; ok {
+		return f(val)
+	}
+	fn, ok := goja.AssertFunction(e.rt.Get(fmt.Sprintf("%s%d", kind, pr)))
+	if !ok {
+		return fmt.Errorf("%s%d is not a function", kind, pr)
+	}
+	_, err := fn(goja.Undefined(), val)
+	return err
+}
+
+// nativeHandler is the Go function standing for a native script.
+func (e *exec) nativeHandler(s *Script) func(goja.FunctionCall) goja.Value {
+	return func(call goja.FunctionCall) goja.Value {
+		arg := call.Argument(0)
+		e.log = append(e.log, logEnt{s.ID, arg})
+		for _, a := range s.Acts {
+			if e.inGoRun {
+				e.nativeInGoDrain = true
+			}
+			var err error
+			if a.Via == "run" {
+				_, err = e.rt.RunString(fmt.Sprintf("%s%d(%s)", a.K, a.Pr, jsVal(a.V)))
+			} else {
+				err = e.settle(a.K, a.Pr, e.goVal(a.V))
+			}
+			if err != nil {
+				e.errs = append(e.errs, fmt.Sprintf("NESTED-ERROR(h%d,%s): %v", s.ID, a.Via, err))
+			}
+		}
+		switch s.Ret.K {
+		case "arg":
+			return arg
+		case "throw":
+			panic(e.goVal(pv(s.Ret.V)))
+		}
+		return e.goVal(pv(s.Ret.V))
+	}
+}
+
 func (e *exec) run() {
+	for _, sc := range scriptsOf(e.c) {
+		if sc.Native {
+			e.rt.Set(sc.hname, e.nativeHandler(sc))
+		}
+	}
 	if len(e.c.Thenables) > 0 {
 		// defines t0..; enqueues nothing, not a run of the model
 		if _, err := e.rt.RunString(jsThenables(e.c.Thenables)); err != nil {
@@ -611,7 +698,10 @@ func (e *exec) run() {
 	nameOf := nameIndex(e.c.Ops)
 	for _, g := range groups(e.c.Ops) {
 		if e.c.Ops[g[0]].Go {
-			e.record(e.runGoOp(e.c.Ops[g[0]], nameOf[g[0]]))
+			e.inGoRun = true
+			err := e.runGoOp(e.c.Ops[g[0]], nameOf[g[0]])
+			e.inGoRun = false
+			e.record(err)
 			continue
 		}
 		_, err := e.rt.RunString(jsGroup(e.c, g, nameOf))
@@ -812,8 +902,14 @@ func staticFeatures(c Case) features {
 		if len(s.Acts) > 0 {
 			f.tags["handler-acts"] = true
 		}
+		if s.Native {
+			f.tags["native-handler"] = true
+		}
 		for _, a := range s.Acts {
 			visitSettle(a.K, a.Pr, a.V)
+			if s.Native {
+				f.tags["native-act-"+a.Via] = true
+			}
 		}
 		switch s.Ret.K {
 		case "throw":
@@ -957,6 +1053,9 @@ func runCase(raw Case) vh.Record {
 	if o.interrupted {
 		f.tags["interrupted-run"] = true
 	}
+	if e.nativeInGoDrain {
+		f.tags["native-in-go-drain"] = true
+	}
 	if len(e.errs) > 0 {
 		f.tags["harness-error"] = true
 	}
@@ -1072,7 +1171,185 @@ func (g *gen) script() *Script {
 	default:
 		s.Ret = Ret{K: "intr"}
 	}
+	if g.r.Chance(10) {
+		g.makeNative(s, 60)
+	}
 	return s
+}
+
+// N-act of a native script: value int 50 / named promise 25 / thenable 15 / undef 10
+func (g *gen) nativeAct(pr int) Act {
+	var v Val
+	switch g.r.Pick(50, 25, 15, 10) {
+	case 0:
+		v = g.someInt()
+	case 1:
+		v = g.someProm()
+	case 2:
+		v = g.someThen()
+	default:
+		v = undef
+	}
+	return Act{K: []string{"res", "rej"}[g.r.Pick(65, 35)], Pr: pr, V: v, Via: []string{"go", "run"}[g.r.Intn(2)]}
+}
+
+func (g *gen) makeNative(s *Script, actsPct int) {
+	s.Native = true
+	if s.Ret.K == "intr" {
+		s.Ret = Ret{K: "arg"}
+	}
+	if len(g.users) > 0 && g.r.Chance(actsPct) {
+		s.Acts = []Act{}
+		for n := 1 + g.r.Intn(2); n > 0; n-- {
+			s.Acts = append(s.Acts, g.nativeAct(g.users[g.r.Intn(len(g.users))]))
+		}
+	}
+	for i := range s.Acts {
+		if s.Acts[i].Via == "" {
+			s.Acts[i].Via = []string{"go", "run"}[g.r.Intn(2)]
+		}
+	}
+}
+
+// handler that logs and returns its argument or an int; sometimes native
+func (g *gen) plainScript(nativePct int) *Script {
+	s := &Script{ID: g.nextID, Acts: []Act{}, Ret: Ret{K: "arg"}}
+	g.nextID++
+	if g.r.Chance(50) {
+		v := g.someInt()
+		s.Ret = Ret{K: "val", V: &v}
+	}
+	if g.r.Chance(nativePct) {
+		g.makeNative(s, 25)
+	}
+	return s
+}
+
+// native re-entry: several reactions hang on p0, at least one of them a native handler that settles
+// OTHER pairs through an outermost entry point; p0 is then settled from Go (a drain that starts with
+// an empty call stack).  Reactions on the other promises make the position of the newly queued jobs
+// relative to the rest of the batch visible in the log.
+func (g *gen) nativeReentry(c *Case) {
+	r := g.r
+	c.Class = "native-reentry"
+	nNew := 2 + r.Intn(3)
+	g.nT = r.Pick(50, 30, 20)
+	g.genThenables(c, nNew)
+	for i := 0; i < nNew; i++ {
+		g.addNew(c)
+		if r.Chance(35) {
+			c.Ops[len(c.Ops)-1].Go = true
+		}
+	}
+	kind0 := []string{"res", "rej"}[r.Pick(75, 25)]
+	type item struct {
+		dep, fixed int // dep = item index, or -1: hangs on the named promise [fixed]; -2: no target
+		build      func(target int) Op
+		name       int
+	}
+	var items []item
+	const maxItems = 12
+	side := func(f *Script, firing string, both bool) (onF, onR *Script) {
+		if firing == "res" {
+			onF = f
+			if both {
+				onR = g.plainScript(0)
+			}
+		} else {
+			onR = f
+			if both {
+				onF = g.plainScript(0)
+			}
+		}
+		return
+	}
+	others := func() int { return 1 + r.Intn(nNew-1) }
+	// thens on p0
+	n0 := 2 + r.Intn(3)
+	nat := r.Intn(n0)
+	for i := 0; i < n0; i++ {
+		var sc *Script
+		if i == nat || r.Chance(20) {
+			sc = g.plainScript(0)
+			sc.Native = true
+			for n := 1 + r.Intn(2); n > 0; n-- {
+				sc.Acts = append(sc.Acts, g.nativeAct(others()))
+			}
+		} else {
+			sc = g.plainScript(15)
+		}
+		onF, onR := side(sc, kind0, r.Chance(25))
+		items = append(items, item{dep: -1, fixed: 0, build: func(t int) Op { return Op{O: "then", P: t, OnF: onF, OnR: onR} }})
+	}
+	// reactions on the other promises and on promises derived from them
+	for j := 1; j < nNew; j++ {
+		dep, fixed := -1, j
+		for n := 1 + r.Intn(3); n > 0 && len(items) < maxItems; n-- {
+			onF := g.plainScript(25)
+			var onR *Script
+			if r.Chance(70) {
+				onR = g.plainScript(25)
+			}
+			d, fx := dep, fixed
+			items = append(items, item{dep: d, fixed: fx, build: func(t int) Op { return Op{O: "then", P: t, OnF: onF, OnR: onR} }})
+			if r.Chance(40) {
+				dep = len(items) - 1
+			} else {
+				dep, fixed = -1, j
+			}
+		}
+	}
+	if r.Chance(35) && len(items) < maxItems {
+		op := Op{O: "async", ID: g.nextID, Awaits: []Val{{K: "prom", N: others()}}, Catch: r.Chance(50)}
+		g.nextID++
+		v := g.someInt()
+		op.End = &Ret{K: "ret", V: &v}
+		items = append(items, item{dep: -2, build: func(int) Op { return op }})
+	}
+	if r.Chance(35) && len(items) < maxItems {
+		f := g.plainScript(30)
+		items = append(items, item{dep: -1, fixed: r.Intn(nNew), build: func(t int) Op { return Op{O: "finally", P: t, Fin: f} }})
+	}
+	done := make([]bool, len(items))
+	for left := len(items); left > 0; left-- {
+		var ready []int
+		for i, it := range items {
+			if !done[i] && (it.dep < 0 || done[it.dep]) {
+				ready = append(ready, i)
+			}
+		}
+		i := ready[r.Intn(len(ready))]
+		t := items[i].fixed
+		if items[i].dep >= 0 {
+			t = items[items[i].dep].name
+		}
+		items[i].name = g.names
+		g.names++
+		done[i] = true
+		c.Ops = append(c.Ops, items[i].build(t))
+	}
+	// the drain from an empty call stack
+	v := g.someInt()
+	if r.Chance(20) {
+		v = g.someThen()
+	}
+	c.Ops = append(c.Ops, Op{Run: 1, Go: true, O: kind0, Pr: 0, V: &v})
+	if r.Chance(40) {
+		acted := map[int]bool{}
+		for _, sc := range scriptsOf(*c) {
+			for _, a := range sc.Acts {
+				acted[a.Pr] = true
+			}
+		}
+		pr := others()
+		for j := 1; j < nNew; j++ {
+			if !acted[j] {
+				pr = j
+			}
+		}
+		v2 := g.someInt()
+		c.Ops = append(c.Ops, Op{Run: 2, Go: true, O: []string{"res", "rej"}[r.Pick(65, 35)], Pr: pr, V: &v2})
+	}
 }
 
 func (g *gen) genThenables(c *Case, base int) {
@@ -1329,8 +1606,12 @@ func (g *gen) tickRace(c *Case) {
 func genCase(r *vh.Rng) Case {
 	g := &gen{r: r, nextID: 1, lastTgt: -1, live: map[int]bool{}, touched: map[int]bool{}}
 	c := Case{Thenables: []Thenable{}, Ops: []Op{}}
-	if r.Chance(20) {
+	switch r.Pick(20, 15, 65) {
+	case 0:
 		g.tickRace(&c)
+		return c
+	case 1:
+		g.nativeReentry(&c)
 		return c
 	}
 	base := 1 + r.Pick(35, 35, 20, 10)
@@ -1436,7 +1717,7 @@ func genCase(r *vh.Rng) Case {
 		var ss []*Script
 		for _, op := range c.Ops {
 			for _, sc := range []*Script{op.OnF, op.OnR, op.Fin} {
-				if sc != nil {
+				if sc != nil && !sc.Native {
 					ss = append(ss, sc)
 				}
 			}
@@ -1563,7 +1844,7 @@ func nodeEmit(in, dir string) {
 			panic(err)
 		}
 		c, names := normalise(rc)
-		if hasGoOrIntr(c) {
+		if hasGoOrIntr(c) || hasNative(c) {
 			skipped++
 			continue
 		}
@@ -1593,7 +1874,7 @@ func nodeEmit(in, dir string) {
 	if err := os.WriteFile(filepath.Join(dir, "check.js"), []byte(js), 0o644); err != nil {
 		panic(err)
 	}
-	fmt.Fprintf(os.Stderr, "node: %d cases emitted, %d skipped (go op / intr); run: node %s\n", len(out), skipped, filepath.Join(dir, "check.js"))
+	fmt.Fprintf(os.Stderr, "node: %d cases emitted, %d skipped (go op / intr / native); run: node %s\n", len(out), skipped, filepath.Join(dir, "check.js"))
 }
 
 // ---------------------------------------------------------------------------------------------
